@@ -413,6 +413,13 @@ func SetSlice(dest reflect.Value, objects interface{}) error {
 	v := EnsurePackValue(objects)
 	if h, ok := v.Interface().(*_refHolder); ok {
 		h.add(dest)
+		// a back-reference to a list that is already complete: nobody will notify this destination later, so give
+		// it the list now (if the list is still being read, notify() overwrites it when it is done)
+		if h.value.IsValid() {
+			if cv, err := ConvertSliceValueType(destTyp, h.value); err == nil && cv.IsValid() {
+				SetValue(dest, cv)
+			}
+		}
 		return nil
 	}
 
@@ -431,7 +438,8 @@ func ConvertSliceValueType(destTyp reflect.Type, v reflect.Value) (reflect.Value
 
 	k := v.Type().Kind()
 	if k != reflect.Slice && k != reflect.Array {
-		return _zeroValue, newCodecError("ConvertSliceValueType", "expect slice type, but get %v, objects: %v", k, v)
+		// the value itself is not printed: decoded data may contain itself, which fmt cannot format
+		return _zeroValue, newCodecError("ConvertSliceValueType", "expect slice type, but get %v (%v)", k, v.Type())
 	}
 
 	if v.Len() <= 0 {
